@@ -447,6 +447,11 @@ def relevance(obligation_name, contract=None):
     import re
     goal = re.sub(r"@\d+$", "", obligation_name).split(":")[-1]
     strict = getattr(contract, "relevant_strict", None) or {}
+    stripped = re.sub(r"@\d+$", "", obligation_name)
+    longer = [k_ for k_ in strict if ":" in k_ and stripped.endswith(":" + k_)]   # e.g. "loop0:inv-entry:<clause>"
+    if longer:
+        only = set(strict[max(longer, key=len)])
+        return lambda tag: tag in only or _base(tag) in only
     if goal in strict:
         only = set(strict[goal])
         return lambda tag: tag in only or _base(tag) in only   # nothing but the named clauses (and untagged facts)
